@@ -27,7 +27,7 @@ TIERS = {
     "quick": {"shards": 8, "budget_s": 40},
     "thorough": {"shards": 16, "budget_s": 420},
 }
-MIN_EVENTS = {"quick": 150, "thorough": 2000}
+MIN_EVENTS = {"quick": 2500, "thorough": 2000}
 DECIDING = {"get_acov", "get_acorr", "rescale"}
 RULE = (
     "families L (stationary and with an exact unit root, measurement blocks), N (nonlinear, log-variables) and G (balanced "
@@ -331,7 +331,7 @@ def replay(c, case):
 def shard(c):
     install()
     rng = c.rng
-    n = c.scale(160, 4000)
+    n = c.scale(640, 4000)
     for i in range(n):
         if c.out_of_time():
             break
